@@ -103,6 +103,14 @@ MustStage(mode, coll, kind) == mode # "any" \/ (kind = "pair" /\ coll # "any")
 Layout(mode, coll, kind) ==
   IF kind = "pair" /\ MustStage(mode, coll, kind) /\ coll # "any" THEN coll ELSE "open"
 
+(* A task with several file fields: every field is staged according to ITS OWN copy    *)
+(* mode and collation, whatever the other fields hold - in particular when the same    *)
+(* object is given to two fields with different modes (the copy must stay independent  *)
+(* and the link must keep showing the original).  fmodes / fcolls : field index -> mode *)
+LeafDemand(L, fmodes, fcolls, i) ==
+  LET m == fmodes[L[i].f]  c == fcolls[L[i].f]  k == Info(L[i].o).kind IN
+  [rel |-> Relation(m), stage |-> MustStage(m, c, k), layout |-> Layout(m, c, k)]
+
 (* ---- theorems ---- *)
 StagingTheorems(L) ==
   LET FI == FileIdx(L)
